@@ -141,7 +141,7 @@ def run(payload):
         bx = tfs._blockify(x, meta)
         r["blocked_shape"] = list(map(int, bx.shape))
         back = tfs._deblockify(bx, meta)
-        if n <= 64:
+        if n <= 256:
           # flat contents for the tensor-level Coq model (C06.BlockifyModel)
           r["blocked_flat"] = [int(v) for v in np.asarray(bx).ravel()]
           r["deblocked_shape"] = list(map(int, back.shape))
@@ -178,7 +178,7 @@ def run(payload):
         mx, _ = mt.update({"w": x}, mt.init({"w": p}), {"w": p})
         r["merged_shape_actual"] = list(map(int, mx["w"].shape))
         bk, _ = ut.update(mx, ut.init({"w": p}), {"w": p})
-        if int(np.asarray(mx["w"]).size) <= 64:
+        if int(np.asarray(mx["w"]).size) <= 128:
           # flat contents for the tensor-level Coq model (C06.BlockifyModel)
           r["merged_flat"] = [int(v) for v in np.asarray(mx["w"]).ravel()]
           r["unmerged_shape"] = list(map(int, bk["w"].shape))
